@@ -216,6 +216,9 @@ class Resolver:
             # cast(T, x) is transparent
             if isinstance(f, ast.Name) and f.id == "cast" and len(e.args) == 2:
                 return T(e.args[1])
+            if isinstance(f, ast.Name) and f.id == "getattr" and len(e.args) == 2 and not e.keywords and isinstance(e.args[1], ast.Constant) and isinstance(e.args[1].value, str) \
+                    and e.args[1].value.isidentifier() and "getattr" not in self.defs and "getattr" not in self.fn.params:
+                return self._term(ast.copy_location(ast.Attribute(value=e.args[0], attr=e.args[1].value, ctx=ast.Load()), e), _visiting, _depth, _compenv, at)
             # getattr(x, "name", default): the attribute, or the default where it is missing
             if isinstance(f, ast.Name) and f.id == "getattr" and len(e.args) == 3 and not e.keywords and isinstance(e.args[1], ast.Constant) and isinstance(e.args[1].value, str) \
                     and "getattr" not in self.defs and "getattr" not in self.fn.params:
